@@ -257,7 +257,8 @@ def check_rules_case(case):
 def csv_results(seq):
     from tally.merchant_engine import load_csv_as_engine
     text = R.render_csv([CSVROWS[i] for i in seq], comments=len(seq) % 2 == 0)
-    path = R.write_scratch("merchant_categories.csv", text)
+    # every other file carries a UTF-8 byte-order mark (spreadsheet export): same rules
+    path = R.write_scratch("merchant_categories.csv", ("\ufeff" + text) if sum(seq) % 2 == 1 else text)
     rules, transforms = R.load_path(path)
     b = [R.normalize_result(rules, transforms, t) for t in TXNS]
     H.reset_state()
